@@ -63,7 +63,7 @@ class OPAdapter(RoutingAdapter):
     sol_type = "(op_inst * Z) * list nat * bool"
     sol_fn = "check_C06_sol"
     reward_td = "reset"
-    shard = 150
+    shard = 60
     tiny = 5
 
     def __init__(self):
@@ -89,10 +89,23 @@ class OPAdapter(RoutingAdapter):
         return _probe_env_class()(generator_params=gp, check_solution=False)
 
     def signature(self, item, tag, step):
+        # the checker used to measure an action list that does not end at the depot without its depot legs: recorded
+        # as fixed (728e3da) in known_findings.json; same signature, so that the defect is named again if it returns
         acts = item.ep.actions
         if tag == 15 and acts and acts[-1] != 0:
             return "op/default: checker-accepts-overlength-tour-when-action-list-does-not-end-at-depot"
         return super().signature(item, tag, step)
+
+    def _witness_noreturn(self):
+        """the recorded witness of the repaired checker defect: depot (0,0), one customer at (0.6,0.8), max_length 0.5,
+        action list [[1]] (the tour depot -> 1 -> depot is 2.0 long)"""
+        from vt.envprops import Item
+        variant = {"num_loc": 1}
+        env = self.make_env(variant)
+        td_in = TensorDict({"locs": torch.tensor([[[0.6, 0.8]]]), "depot": torch.tensor([[0.0, 0.0]]),
+                            "prize": torch.tensor([[1.0]]), "max_length": torch.tensor([0.5])}, batch_size=[1])
+        td_reset = env.reset(td_in.clone())
+        return Item(self, variant, env, td_in, td_reset, envh.Episode(), {"kind": "witness/fixed-728e3da"}, "solo")
 
     # ---------------------------------------------------------------- instances
     @staticmethod
@@ -295,11 +308,12 @@ class OPAdapter(RoutingAdapter):
     def extra_c06(self, ctx, tier, items):
         # the generic single-fault corruptions (vt/envs/_base.py), on a sample of the episodes in the thorough tier (budget)
         done = [it for it in items if it.ep.complete]
-        cap_n = 40 if tier == "quick" else 150
+        cap_n = 25 if tier == "quick" else 150
         sub = items if len(done) <= cap_n else ctx.rng.sample(done, cap_n)
         out = super().extra_c06(ctx, tier, sub) or {}
         rng = ctx.rng
-        triples = []
+        w = self._witness_noreturn()
+        triples = [(w, "witness-no-return", [1]), (w, "witness-closed", [1, 0])]
         seen = set()
         for it in items:
             key = str(it.td_in["locs"].tolist()) + str(it.td_in["max_length"].tolist())
@@ -315,12 +329,13 @@ class OPAdapter(RoutingAdapter):
                 tours.append(rng.sample(range(1, n + 1), k))
             for cs in tours:
                 triples.append((it, "closed", cs + [0]))
+                triples.append((it, "no-return", list(cs)))
                 triples.append((it, "closed-padded", cs + [0, 0, 0]))
                 triples.append((it, "depot-first", [0] + cs + [0]))
                 if len(cs) >= 2:
                     m = len(cs) // 2
                     triples.append((it, "via-depot", cs[:m] + [0] + cs[m:] + [0]))
-            if len(triples) > (180 if tier == "quick" else 900):
+            if len(triples) > (120 if tier == "quick" else 900):
                 break
         out.update(_handsol.check_solutions(self, ctx, tier, triples, "handbuilt"))
         return out
